@@ -1,7 +1,7 @@
 """C14 helper — complete seeded runs of the real samplers in forked children, reduced to byte digests.
 
-Every run happens in a child process forked from the (single-threaded at that moment) harness process, with one
-torch thread, a private output directory and logging disabled; the child sends back a small dictionary of sha256
+Every run happens in a child process forked from the (single-threaded at that moment) harness process, starts by
+scrambling the ambient NumPy/torch generator state (see run_config), with one torch thread, a private output directory and logging disabled; the child sends back a small dictionary of sha256
 digests (nested samples bytes, evidence, posterior weights, evaluation count) through a pipe.  `inproc=True` runs the
 same function in the calling process instead (used for the "same process twice" comparison).
 """
@@ -127,6 +127,14 @@ def run_config(cfg, model=None):
     from nessai.flowsampler import FlowSampler
     logging.disable(logging.CRITICAL)
     torch.set_num_threads(1)
+    # A genuinely separate process starts from its own ambient generator state.  Fork children would all inherit the
+    # parent's, which hides any dependence of a "seeded" run on that state — so every run first scrambles both global
+    # generators, from the per-run value chosen by the harness (different for every compared run) or from the OS.
+    amb = cfg.get("ambient")
+    if amb is None:
+        amb = int.from_bytes(os.urandom(4), "little")
+    np.random.seed(int(amb) % (2 ** 32))
+    torch.manual_seed(int(amb))
     out = tempfile.mkdtemp(prefix="c14_")
     user_pool = None
     try:
@@ -269,7 +277,11 @@ def run_job(cfg):
         return d
     if cfg.get("repeat"):
         model = make_model(cfg.get("model", "vec")) if cfg.get("reuse_model") else None
-        return {"seq": [run_config(cfg, model=model) for _ in range(int(cfg["repeat"]))]}
+        seq = []
+        for k in range(int(cfg["repeat"])):
+            c = dict(cfg) if cfg.get("ambient") is None else {**cfg, "ambient": int(cfg["ambient"]) + 7919 * k}
+            seq.append(run_config(c, model=model))
+        return {"seq": seq}
     return run_config(cfg)
 
 
